@@ -364,6 +364,26 @@ def propagate_copies(rel, text):
 # ---------------------------------------------------------------------------------------------------
 # Functions that are equivalent to their reviewed snapshot under the behaviour-preserving rewrites of
 # normform.py are analysed in their reviewed form: the reviewed text of the function is spliced in.
+def one_sided(cur, ref):
+    """Plain module-level functions and methods that exist in only one of the two module trees
+    (candidates for inlining): (cur-only functions, ref-only functions, {class: {'self.m': def}} for cur, same for ref)."""
+    cmod = {n.name: n for n in cur.body if isinstance(n, ast.FunctionDef)}
+    rmod = {n.name: n for n in ref.body if isinstance(n, ast.FunctionDef)}
+    co = {k: v for k, v in cmod.items() if k not in rmod}
+    ro = {k: v for k, v in rmod.items() if k not in cmod}
+
+    def methods(tree):
+        out = {}
+        for n in tree.body:
+            if isinstance(n, ast.ClassDef):
+                out[n.name] = {m.name: m for m in n.body if isinstance(m, ast.FunctionDef)}
+        return out
+    cm, rm = methods(cur), methods(ref)
+    cmeth = {c: {'self.' + k: v for k, v in ms.items() if k not in rm.get(c, {})} for c, ms in cm.items()}
+    rmeth = {c: {'self.' + k: v for k, v in ms.items() if k not in cm.get(c, {})} for c, ms in rm.items()}
+    return co, ro, {c: v for c, v in cmeth.items() if v}, {c: v for c, v in rmeth.items() if v}
+
+
 def splice_equivalent(rel, text):
     """Returns (text', splices) with splices = [(qualname, canon_lo, canon_hi, orig_lo, orig_hi)] (1-based, inclusive)."""
     ref_path = os.path.join(REFDIR, rel.replace('/', '__'))
@@ -379,10 +399,7 @@ def splice_equivalent(rel, text):
         return text, []
     from . import normform
     cf, rf = _functions(cur), _functions(ref)
-    cmod = {n.name: n for n in cur.body if isinstance(n, ast.FunctionDef)}
-    rmod = {n.name: n for n in ref.body if isinstance(n, ast.FunctionDef)}
-    co = {k: v for k, v in cmod.items() if k not in rmod}
-    ro = {k: v for k, v in rmod.items() if k not in cmod}
+    co, ro, cmeth, rmeth = one_sided(cur, ref)
     done = []
     plan = []          # (qualname, cur fn, replacement lines)
     rlines = ref_text.split('\n')
@@ -401,7 +418,10 @@ def splice_equivalent(rel, text):
         if ast.dump(a) == ast.dump(b):
             continue
         try:
-            eq = normform.equivalent(a, b, co, ro)
+            cls = q.rsplit('.', 1)[0] if '.' in q else None
+            cfun = dict(co, **cmeth.get(cls, {}))
+            rfun = dict(ro, **rmeth.get(cls, {}))
+            eq = normform.equivalent(a, b, cfun, rfun)
         except Exception:
             eq = False
         if eq:
@@ -411,7 +431,7 @@ def splice_equivalent(rel, text):
             continue
         # not equivalent: at least remove what the reviewed function does not have (new locals / helpers / constant loops)
         try:
-            out, _ = normform.toward_reviewed(a, b, co)
+            out, _ = normform.toward_reviewed(a, b, cfun)
         except Exception:
             out = None
         if out is not None:
@@ -443,7 +463,7 @@ def splice_equivalent(rel, text):
     out.extend(lines[pos - 1:])
     new_text = '\n'.join(out)
     # helpers that exist only in the current module and are no longer called anywhere (they were inlined): blanked
-    if co:
+    if co or cmeth:
         try:
             t2 = ast.parse(new_text)
             loads = {n.id for n in ast.walk(t2) if isinstance(n, ast.Name) and isinstance(n.ctx, ast.Load)}
@@ -458,6 +478,12 @@ def splice_equivalent(rel, text):
                     lo = min([n.lineno] + [d.lineno for d in n.decorator_list])
                     for k in range(lo - 1, n.end_lineno):
                         ol[k] = ''
+                if isinstance(n, ast.ClassDef) and n.name in cmeth:
+                    for mth in n.body:
+                        if isinstance(mth, ast.FunctionDef) and 'self.' + mth.name in cmeth[n.name] and mth.name not in loads and len(n.body) > 1:
+                            lo = min([mth.lineno] + [d.lineno for d in mth.decorator_list])
+                            for k in range(lo - 1, mth.end_lineno):
+                                ol[k] = ''
             new_text = '\n'.join(ol)
         except SyntaxError:
             pass
